@@ -145,7 +145,10 @@ def _callsite(span, gen_file):
     """a span inside a macro expansion (e.g. unimplemented!()) -> the span of the macro call in the generated file"""
     s = span
     guard = 0
-    while s and os.path.basename(s.get("file_name", "")) != gen_file and s.get("expansion") and guard < 10:
+    # (also when the macro is one of the unit's own macro_rules shims, i.e. defined in the generated file itself)
+    while s and s.get("expansion") and guard < 10 and \
+            (os.path.basename(s.get("file_name", "")) != gen_file or
+             (s["expansion"].get("span") and os.path.basename(s["expansion"]["span"].get("file_name", "")) == gen_file)):
         s2 = dict(s["expansion"]["span"])
         s2["is_primary"] = span.get("is_primary")
         s2.setdefault("label", span.get("label"))
